@@ -31,7 +31,7 @@ CHECKS = {
    ref="5/C05"),
  "C14": dict(
    technique="runtime monitoring: before/after snapshot oracle around requests that the shadow model says must be refused (canonical observation with handles and every reverse lookup, search answers, hooked dump of all stores and indices), then the corrected request against a twin store replayed without the failure",
-   text="On stores reached by seeded histories, up to 10 invalid requests per store from a catalogue of 23 (unknown resource/annotation/dataset/key/data, out-of-range and inverted offsets, complex selector with an invalid last member, nested complex selector (after a valid member, and first or alone), missing target - each combined with data new to the store -, valid target with unknown set/key/data handles after new data, duplicate annotation/resource/dataset/data ids) and one batch per store (annotate_from_iter, annotate_from_file, ADD query) with the invalid item first, in the middle or last: the snapshot after the refusal must equal the snapshot before, and the corrected request must leave the store equal to a twin that never saw the failure. Held for the faults observed except the recorded findings (annotate() is not atomic).",
+   text="On stores reached by seeded histories, up to 10 invalid requests per store from a catalogue of 23 (unknown resource/annotation/dataset/key/data, out-of-range and inverted offsets, complex selector with an invalid last member, nested complex selector (after a valid member, and first or alone), missing target - each combined with data new to the store -, valid target with unknown set/key/data handles after new data, duplicate annotation/resource/dataset/data ids) and one batch per store (annotate_from_iter, annotate_from_file, ADD query with a fixed id, ADD query whose TARGET carries a relative OFFSET that does not fit every row) with the invalid item first, in the middle or last: the snapshot after the refusal must equal the snapshot before, and the corrected request must leave the store equal to a twin that never saw the failure. Held for the faults observed except the recorded findings (annotate() is not atomic).",
    note="Trusted: obs.rs observation, c12::answers, the dump hook. Requests where model and library disagree on refusal are C03/C04's business and are not judged here; with_annotations() (consumes the store) is not exercised.",
    ref="5/C14"),
  "C16": dict(
@@ -51,12 +51,12 @@ CHECKS = {
    ref="5/C18"),
  "C19": dict(
    technique="runtime monitoring with process isolation: mutated serialisations are loaded in a child process under RLIMIT_AS / RLIMIT_CPU and a wall-clock watchdog, each input under catch_unwind; the parent attributes signals, exit status and stalls to single inputs; every store a loader returns goes through the dump self-consistency checker (C01-C03), the canonical observation and re-serialisation",
-   text="Valid STAM JSON, STAM CSV and CBOR serialisations of stores from seeded histories are mutated (line-wise JSON edits incl. extreme numbers, temporary ids with extreme numbers, @type swaps, rewired references, retyped values, truncation; CSV cell edits in manifest, annotation and dataset files; CBOR truncation at every short length, bit flips, length bytes) and loaded through from_str / from_file, AnnotationBuilder::from_json_str, annotate_from_file, AnnotationDataSet::from_file, plus hostile strings for the Cursor / Type / SelectorKind / DataFormat parsers. No input may panic, abort, exceed the CPU limit or stall, and an accepted store must be self-consistent. Held on the inputs observed except two recorded findings.",
+   text="Valid STAM JSON, STAM CSV and CBOR serialisations of stores from seeded histories are mutated (line-wise JSON edits incl. extreme numbers, temporary ids with extreme numbers, @type swaps, rewired references, retyped values, truncation; store files that @include each other (cycles, self-include, diamond, missing file) loaded from another directory than the current one; CSV cell and list-element edits in manifest, annotation and dataset files; CBOR truncation at every short length, bit flips, length bytes) and loaded through from_str / from_file, AnnotationBuilder::from_json_str, annotate_from_file, AnnotationDataSet::from_file, plus hostile strings for the Cursor / Type / SelectorKind / DataFormat parsers. No input may panic, abort, exceed the CPU limit or stall, and an accepted store must be self-consistent. Held on the inputs observed except two recorded findings.",
    note="Trusted: dumpcheck.rs. The memory bound is the child's RLIMIT_AS (3 GiB): allocations below it that are driven by a number in the input are not noticed. Time proportional to the input is judged on thread CPU time with 2 s + 1 ms/byte per input; a wall-clock stall is inconclusive, never a verdict.",
    ref="5/C19"),
  "C20": dict(
-   technique="runtime monitoring with a deterministic scheduler over hooked yield points (depth-first enumeration of the interleavings of two readers up to a budget, seeded sampling of pairs and triples) plus free-running stress with injected yields; oracle: every thread's result equals the result of the same call running alone before and after, and the hooked dump of the store is unchanged. Thorough adds Miri and ThreadSanitizer runs of the reader workloads when the tools build",
-   text="Reader operations (store.to_json_string, ToJson::to_json_string on a resource and a dataset, TextResource::to_json_string, a SELECT query, QueryResultItem::to_json_string, related_text, the .parallel() adaptors) run as 2-3 threads over one shared store with inline members, with stand-off members (unchanged and changed); every thread parks at each read or write of the shared serialisation mode and of the changed flags and a controller grants single steps; all pairs of operations are enumerated (exhaustively where the schedule tree is small, else up to the budget, then sampled), triples are sampled, and 4-12 free-running threads stress the same pairs. Held except the recorded finding (serialising a resource or dataset toggles the mode cell shared by all clones of the configuration).",
+   technique="runtime monitoring with a deterministic scheduler over hooked yield points (depth-first enumeration of the interleavings of two readers up to a budget, seeded sampling of pairs and triples) plus free-running stress with injected yields; oracle: every thread's result equals the result of the same call running alone before and after, and the hooked dump of the store is unchanged; for stores with changed stand-off members, what a reader leaves on disk must not depend on which other reader ran before it (sequential, fresh store per order). Thorough adds Miri and ThreadSanitizer runs of the reader workloads when the tools build",
+   text="Reader operations (store.to_json_string, ToJson::to_json_string on a resource and a dataset, ToJson::to_json_file on a resource, ToCsv::to_csv_string on a dataset and on the store, TextResource::to_json_string, a SELECT query, QueryResultItem::to_json_string, related_text, the .parallel() adaptors) run as 2-3 threads over one shared store with inline members, with stand-off members (unchanged and changed); every thread parks at each read or write of the shared serialisation mode and of the changed flags and a controller grants single steps; all pairs of operations are enumerated (exhaustively where the schedule tree is small, else up to the budget, then sampled), triples are sampled, and 4-12 free-running threads stress the same pairs. Held except the recorded finding (serialising a resource or dataset toggles the mode cell shared by all clones of the configuration).",
    note="Trusted: the yield points of the verif feature cover every access to Config.serialize_mode and the changed flags; code between yield points is atomic in the controlled schedules and only exercised by the stress runs and the sanitizers. rayon worker threads are not scheduled.",
    ref="5/C20"),
  "C15": dict(
@@ -91,7 +91,7 @@ CHECKS = {
    ref="5/C10"),
  "C11": dict(
    technique="runtime monitoring: round-trip differential on stores reached by seeded histories - hooked dump of all stores, id maps, reverse indices and position indices compared entry by entry between the saved and the loaded store, plus observation with handles, search answers and re-serialisation to JSON",
-   text="Final states of seeded histories (gaps, protect_text, all selector kinds) are saved as CBOR and loaded again (shrink_to_fit on/off); the dumps of every index must be equal entry by entry, the canonical observation including handles and every reverse lookup must be equal, segmentation/find_text/related_text answers and the rows of 8 seeded queries must be equal and both stores must serialise to the same STAM JSON. Held on the stores observed.",
+   text="Final states of seeded histories (gaps, protect_text, all selector kinds; 1 in 4 with an extra annotation that names the same target twice, so that reverse-index entries repeat) are saved as CBOR and loaded again (shrink_to_fit on/off); the dumps of every index must be equal entry by entry, the canonical observation including handles and every reverse lookup must be equal, segmentation/find_text/related_text answers and the rows of 8 seeded queries must be equal and both stores must serialise to the same STAM JSON. Held on the stores observed.",
    note="Trusted: the dump hook; run-time state (changed flags, serialize-mode cell, caller-supplied debug/shrink settings) is excluded as documented.",
    ref="5/C11"),
  "C12": dict(
